@@ -161,7 +161,8 @@ def check(tier, seed, replay=None):
     proof_ok, detail = C.prepare_lean(rep)
     rep.cov["rule"] = ("random models whose nodes share NodeTemplate/OperatorTemplate objects + a history of 1-4 override operations: update_var on a single node, on 'all' "
                        "(scalar and per-node array values), values exactly 0, edge weight updates, circuits derived with update_template(edges=...) followed by an edge update on "
-                       "base or derived, apply-time node_values (scalar/array) on top of template-level values; observables: compiled argument values, initial state, dy at 2 points. "
+                       "base or derived, apply-time node_values (scalar/array) on top of template-level values; observables: compiled argument values, initial state, dy at 2 points; "
+                       "V stream: the update_var/node_values histories observed through run(vectorize=True) trajectories. "
                        "distinct = distinct (model, history); non-trivial = a shared template object is involved (some template id used by >= 2 nodes)")
     if replay:
         cases = [json.load(open(replay))["case"]]
@@ -186,13 +187,43 @@ def check(tier, seed, replay=None):
             bad.append((case, im, dev))
         else:
             rep.validated()
+    # V stream: the same histories observed through run(vectorize=True) - per-node values travel as vectors there
+    vbad = []
+    if not replay:
+        from . import c04
+        vc_all = []
+        for case in cases:
+            if all(h[0] in ("update_var", "node_values") for h in case["history"]) and not case["mdl"]["circuit"].get("circuits") and len(vc_all) < (60 if tier == "quick" else 800):
+                flat_e = M.flatten(case["expected_mdl"])
+                sp = M.state_paths(flat_e)
+                vc = {"mdl": {k: v for k, v in case["mdl"].items() if k != "post_values"}, "history": case["history"], "expected_mdl": case["expected_mdl"],
+                      "run": {"T": "1", "dt": "1/2", "solver": "euler", "vectorize": True, "outputs": {f"v{i}": p for i, p in enumerate(sp)}}, "style": {}, "in_place": case.get("in_place", True)}
+                vo = N.oracle_traj(dict(vc, mdl=case["expected_mdl"]))
+                if "error" not in vo and vo["bits"] <= 46:
+                    vc_all.append((vc, vo))
+        vres = C.run_forked(N.impl_run, [v[0] for v in vc_all], timeout=240)
+        kf_on = any(f.get("id") == "C07-inherits-C04-regions" and f.get("status") == "known" for f in C.load_known_findings())
+        for (vc, vo), vi in zip(vc_all, vres):
+            if "crash" in vi:
+                raise C.HarnessError("harness child crashed (V stream): " + str(vi)[:600])
+            rep.count("V-vectorized-run-history-" + "+".join(sorted({h[0] for h in vc["history"]})), json.dumps(vc, sort_keys=True), nontrivial=True)
+            vdev = c04.deviations(vc, vi, vo)
+            if not vdev:
+                rep.validated()
+            elif kf_on and any(pred(dict(vc, mdl=vc["expected_mdl"]), "vec", vi, vdev) for pred, _ in c04.KNOWN.values()):
+                rep.known_finding("C07-inherits-C04-regions: vectorize=True inside a region of a C04 known finding")
+            else:
+                vbad.append((vc, vi, vdev))
     drv.close()
     rep.sample({"history": cases[-1]["history"], "nodes": cases[-1]["mdl"]["circuit"].get("nodes"), "impl_args": res[-1].get("args")})
     rep.cov["streams"]["impl_vs_spec_disagreements"] = len(bad)
     if bad:
         case, im, dev = min(bad, key=lambda x: len(json.dumps(x[0]["mdl"])) + 50 * len(x[0]["history"]))
         rep.violation(f"an override did not reach exactly its targets ({dev[0][0]})", {"case": {k: v for k, v in case.items() if k != 'expected_mdl'}, "impl": im, "deviations": dev[:4]})
-    elif not proof_ok:
+    if vbad:
+        vc, vi, vdev = min(vbad, key=lambda x: len(json.dumps(x[0]["mdl"])))
+        rep.violation(f"vectorize=True: an override did not reach exactly its targets ({vdev[0][0]})", {"case": {k: v for k, v in vc.items() if k != "expected_mdl"}, "impl": vi, "deviations": vdev[:4]})
+    if not bad and not vbad and not proof_ok:
         why = {"proof_ok": proof_ok, "build_log_tail": detail["build_log_tail"], "forbidden": detail["forbidden"],
                "audit_failures": (detail["audit"] or {}).get("failures"), "broken": "theorems of PyRatesModel.Props.C07 (build/audit)"}
         rep.violation("C07 is no longer shown to hold: " + why["broken"], why, no_input=True, name="unproved")
